@@ -8,9 +8,9 @@ import CedarProofs.CodecStr
 namespace Cedar
 
 theorem wireBytes_putStringBytes (enc : Bool) (buf s : Bytes) (hnz : ∀ b ∈ s, b ≠ 0) (hlen : s.length + 1 < 2^64) :
-    wireBytes (putStringBytes enc buf s) = buf ++ Spec.enc enc (.str s) := by
+    wireBytes (putStringBytesL enc buf s) = buf ++ Spec.enc enc (.str s) := by
   have hnul : truncNul s = s := takeWhile_all _ s (fun b hb => by simpa using hnz b hb)
-  unfold putStringBytes
+  unfold putStringBytesL
   simp only [hnul]
   by_cases hbig : s.length + 1 + (if enc = true then 8 else 0) > maxFramePayload enc
   · rw [if_pos hbig]
